@@ -88,6 +88,9 @@ ASSUMPTIONS = [
 ]
 
 CRASH_CODE = 17
+# ledger predicate (C12-F3): load=True sets the evaluation counter to len(database), which counts the entries without
+# outputs that an interrupted parallel DOE registered up front; with reset_iteration_counters=False the restart stops at once
+KNOWN_EMPTY_ENTRIES = "counter_restored_from_backup_counts_entries_without_outputs"
 # ledger predicate (C12-F1): an MDO restart never evaluates the observables at a loaded entry that lacks them
 KNOWN_OBSERVABLE = "restart_skips_observable_of_loaded_incomplete_entry"
 # ledger predicate (C12-F2): max_iter / ftol / xtol stops are raised inside the new-iteration event of the last point; a
@@ -145,10 +148,16 @@ def configs(draw, algo: str):
     if kind == "mdo":
         p["tols_off"] = draw(st.booleans())
     if kind == "doe":
-        p["eval_jac"] = draw(st.booleans())
+        # interrupted parallel DOE (n_processes=2) with transient failures of some samples: see _case_parallel
+        p["parallel"] = draw(st.sampled_from([False, False, True]))
+        p["eval_jac"] = False if p["parallel"] else draw(st.booleans())
         p["seed"] = draw(st.integers(1, 5))
         if algo == "CustomDOE":
             p["samples"] = draw(st.lists(st.lists(st.integers(0, GRID), min_size=n_x, max_size=n_x), min_size=budget, max_size=budget))
+        if p["parallel"]:
+            p.update(structure="single", observable=False, initial="absent", fail_mask=draw(st.integers(0, 2**15 - 1)))
+            if algo == "CustomDOE":
+                p["samples"] = [list(t) for t in dict.fromkeys(tuple(idx) for idx in p["samples"])]  # distinct points
     if algo in ("SLSQP", "L-BFGS-B") or p.get("eval_jac"):
         p["diff"] = draw(st.sampled_from(["user", "finite_differences", "complex_step", "complex_step"]))
         if p["diff"] != "user":
@@ -414,6 +423,65 @@ def child_run(p, path, mode: str, crash_at: int | None, record_stores: bool):
     }
 
 
+def child_run_parallel(p, path, c: int, fail: set, marker_path: str, points):
+    """Interrupted parallel DOE: n_processes=2, the process dies while sample ``c`` is being evaluated.
+
+    The schedule is made deterministic by the harness discipline (running in gemseo's worker processes): samples
+    before ``c`` complete, except those of ``fail`` which raise (a transient failure: the entry registered up front
+    stays without outputs); the execution of sample ``c`` waits until all of them are stored and backed up, then
+    kills the main process; an execution of a later sample waits for that death.
+    """
+    import time
+
+    main_pid = os.getpid()
+    index_of = {np.asarray(x).tobytes(): j for j, x in enumerate(points)}
+    n_before = len([j for j in range(c) if j not in fail])
+    devnull = os.open(os.devnull, os.O_WRONLY)
+    os.dup2(devnull, 2)  # tracebacks of the transient failures logged by the workers
+
+    def stored() -> int:
+        try:
+            with open(marker_path) as fh:
+                return int(fh.read() or 0)
+        except (OSError, ValueError):
+            return 0
+
+    def hook(name, x):
+        j = index_of.get(np.asarray(x).tobytes())
+        if j is None or os.getpid() == main_pid:
+            os._exit(6)  # harness assumption broken: unknown point, or execution in the main process
+        if j < c:
+            if j in fail:
+                raise ValueError("transient failure of this evaluation")
+            return
+        t0 = time.monotonic()
+        if j == c:
+            while stored() < n_before and time.monotonic() - t0 < 60:
+                time.sleep(0.005)
+            if stored() < n_before:
+                os._exit(7)
+            os.kill(main_pid, signal.SIGKILL)
+        while os.getppid() == main_pid and time.monotonic() - t0 < 60:
+            time.sleep(0.005)
+        os._exit(0)
+
+    scenario = build_scenario(p, hook)
+    database = scenario.formulation.optimization_problem.database
+    scenario.set_optimization_history_backup(path, **backup_kwargs(p))
+
+    def marker(x_vect):  # registered after the backup listener: the file is up to date when the count is published
+        n = sum(1 for values in database.values() if values)
+        with open(marker_path + ".tmp", "w") as fh:
+            fh.write(str(n))
+        os.replace(marker_path + ".tmp", marker_path)
+
+    database.add_new_iter_listener(marker)
+    settings = algo_settings(p, None)
+    settings["n_processes"] = 2
+    scenario.execute(**settings)
+    return {"ended": True}
+
+
 def _spawn(fn, out_path: str) -> int:
     if threading.active_count() != 1:
         raise HarnessError(f"C12: {threading.active_count()} threads alive before a fork: {[t.name for t in threading.enumerate()]}")
@@ -422,6 +490,7 @@ def _spawn(fn, out_path: str) -> int:
         return pid
     code = 3
     try:
+        os.setsid()  # own process group: whatever the child leaves behind (pool workers, managers) is killed with it
         signal.alarm(CHILD_TIMEOUT_S)
         doc = {"ok": fn()}
         code = 0
@@ -437,6 +506,14 @@ def _spawn(fn, out_path: str) -> int:
     finally:
         os._exit(code)
     return 0  # unreachable
+
+
+def _kill_group(pid: int) -> None:
+    """Kill what is left of the process group of a child (orphaned workers of a parallel DOE, its manager)."""
+    try:
+        os.killpg(pid, signal.SIGKILL)
+    except (ProcessLookupError, PermissionError):
+        pass
 
 
 def run_children(tasks, workers: int):
@@ -456,8 +533,10 @@ def run_children(tasks, workers: int):
             pid, status = os.waitpid(-1, 0)
             if pid in running:
                 codes[running.pop(pid)] = os.waitstatus_to_exitcode(status)
+                _kill_group(pid)
     finally:
         for pid in list(running):
+            _kill_group(pid)
             try:
                 os.kill(pid, signal.SIGKILL)
             except ProcessLookupError:
@@ -595,7 +674,7 @@ def descriptor(p) -> str:
     return "/".join([
         p["kind"], p["algo"], structure_of(p) + ("+obs" if p.get("observable") else ""), p.get("diff", "user"), f"x{p['n_x']}", p["policy"], p["initial"],
         "norm" if p["normalize"] else "phys", f"b{p['budget']}", "reset" if p["reset"] else "keep",
-        "max" if p.get("maximize") else "min",
+        "max" if p.get("maximize") else "min", *(["parallel"] if p.get("parallel") else []),
     ])
 
 
@@ -609,7 +688,210 @@ def case_crash(p, ctx):
         shutil.rmtree(work, ignore_errors=True)
 
 
+def _check_restarts(p, ctx, desc, ref, dirs, backups, workers, warm, n_full, budget_bound):
+    """Restart (a fresh forked child with load=True, or the re-run of the script) from every crashed backup."""
+    # ---- restart from every crashed backup
+    restart_mode = "warm" if warm else "load"  # the re-run of the same script / the documented restart
+    tasks = [(lambda path=path: child_run(p, path, restart_mode, None, False), os.path.join(d, "restart.pkl")) for k, d, path in dirs]
+    restart_out = run_children(tasks, workers)
+    for (k, d, path), (code, doc) in zip(dirs, restart_out):
+        rs = child_document(ctx, code, doc, f"restart after the crash at execution {k} [{desc}]", k=k)
+        backup = backups[k]
+        final = rs["final"]
+        exact = {(str(x.dtype), x.tobytes()): i for i, (x, _) in enumerate(final)}
+        by_point = {}
+        for i, (x, _) in enumerate(final):
+            by_point.setdefault(phys_key(x), i)
+
+        # loaded entries are kept, first and in order
+        expected_initial = backup
+        if warm:
+            # the script already holds its first batch when it loads: those entries, completed / followed by the backup's
+            # (a backup written after the first batch starts with them, so this is the backup itself unless it is empty)
+            expected_initial = [(x, dict(vals)) for x, vals in ref["initial"]]
+            for x_b, vals_b in backup:
+                for x_e, vals_e in expected_initial:
+                    if same_key(x_e, x_b):
+                        vals_e.update(vals_b)
+                        break
+                else:
+                    expected_initial.append((x_b, dict(vals_b)))
+        msg = diff_snapshots(rs["initial"], expected_initial)
+        ctx.check(msg is None, "loaded_kept", f"restart after crash {k}: database after load=True differs from the backup: {msg}", k=k)
+        msg = diff_snapshots(final, backup, prefix_only=True, subset_names=True)
+        ctx.check(msg is None, "loaded_kept", f"restart after crash {k}: loaded entries changed at the end of the run: {msg}", k=k)
+
+        # no rework
+        in_backup = {phys_key(x): (x, vals) for x, vals in backup}
+        n_replayed = 0
+        for ev in rs["events"]:
+            if ev[0] != "exec" or ev[1] <= rs["n_exec_before"]:
+                continue  # executions of the script before it set (and loaded) the backup
+            _, _, name, x = ev
+            hit = in_backup.get(phys_key(x)) if phys_key(x) is not None else None
+            if hit is None:
+                continue
+            x_b, vals = hit
+            n_replayed += 1
+            i = exact.get((str(x_b.dtype), x_b.tobytes()))
+            new_names = set(final[i][1]) - set(vals) if i is not None else set()
+            ctx.check(bool(new_names), "no_rework",
+                      f"restart after crash {k}: discipline {name} executed at {x.tolist()} although the backup holds {sorted(vals)} there and nothing new was stored",
+                      k=k, point=x.tolist())
+        if n_replayed:
+            ctx.cls("restart_completes_a_partial_entry")
+        if backup and rs["n_exec"] < ref["n_exec"]:
+            ctx.cls("restart_saves_executions")
+
+        # optimum at least as good as the best loaded one
+        tol = rs["ineq_tolerance"]
+        res = rs["result"]
+        obj = rs["objective_name"]
+        complete = [vals for _, vals in backup if obj in vals and ("g" in vals or not has_constraint(p))]
+        feasible = [float(np.real(np.atleast_1d(vals[obj])[0])) for vals in complete if not has_constraint(p) or bool(np.all(np.asarray(vals["g"]) <= tol))]
+        if feasible:
+            best = min(feasible)
+            ctx.check(res["is_feasible"], "optimum", f"restart after crash {k}: reported optimum infeasible, the backup holds a feasible point", k=k)
+            # the stored (standardised: minimised) objective at the reported point; no sign convention of f_opt involved
+            i_opt = by_point.get(phys_key(res["x_opt"])) if res["x_opt"] is not None else None
+            ctx.check(i_opt is not None and obj in final[i_opt][1], "optimum",
+                      f"restart after crash {k}: reported optimum {res['x_opt']} has no recorded objective", k=k)
+            reported = float(np.real(np.atleast_1d(final[i_opt][1][obj])[0]))
+            ctx.check(reported <= best, "optimum",
+                      f"restart after crash {k}: reported point has {obj} = {reported}, the backup holds a feasible point with {best}", k=k)
+            ctx.cls("restart_with_feasible_loaded_point")
+        elif complete and not res["is_feasible"]:
+            g_rep = res["constraints"].get("g")
+            if g_rep is None or np.asarray(g_rep).dtype == object:
+                # The reported point is a partially recorded one (e.g. the loaded incomplete entry that a normalised
+                # restart missed by an ulp): no violation measure is defined for it (C04's assumption, P16).
+                ctx.cls("restart_reports_partially_recorded_point")
+            else:
+                least = min(violation_measure(vals["g"], tol) for vals in complete)
+                # relative margin 1e-9: the code sums squares in its own order
+                ctx.check(violation_measure(g_rep, tol) <= least * (1 + 1e-9), "optimum",
+                          f"restart after crash {k}: reported violation {violation_measure(g_rep, tol)}, a loaded point has {least}", k=k)
+                ctx.cls("restart_with_only_infeasible_loaded_points")
+
+        # the restored counter: a run completed with reset_iteration_counters=False stays within max_iter
+        if p["kind"] == "mdo" and not p["reset"]:
+            ctx.check(len(final) <= p["budget"], "counter_restored",
+                      f"restart after crash {k} (reset_iteration_counters=False, {len(backup)} loaded entries): {len(final)} entries, max_iter={p['budget']}", k=k)
+            if budget_bound:
+                ctx.cls("restart_keeping_counters_of_a_run_stopped_by_max_iter")
+
+        # same history as the uninterrupted run
+        if not p["normalize"]:
+            expected_final = ref["final"]
+            missing_obs = [i for i, (_, vals) in enumerate(backup) if "o" not in vals and i < len(final) and "o" not in final[i][1]]
+            if p["kind"] == "mdo" and p.get("observable") and missing_obs and ctx.known(KNOWN_OBSERVABLE):
+                # exactly that class: the observable is not required at loaded entries that came without it
+                expected_final = [(x, {n: v for n, v in vals.items() if not (n == "o" and i in missing_obs)})
+                                  for i, (x, vals) in enumerate(ref["final"])]
+            if not p["reset"] and any(not vals for _, vals in backup) and ctx.known(KNOWN_EMPTY_ENTRIES):
+                # exactly that class: the loaded backup holds entries without outputs (interrupted parallel DOE) and
+                # the counter restored from it is kept: the restarted DOE stops at once
+                ctx.cls("history_not_compared_known_finding_empty_entries")
+                continue
+            if not p["reset"]:
+                msg = diff_snapshots(final, expected_final)
+                if msg is not None and p["kind"] == "mdo" and len(backup) == n_full and ctx.known(KNOWN_LAST_ENTRY):
+                    # exactly that class: the crash came after the store whose new-iteration event stopped the
+                    # uninterrupted run; the restarted run may complete this last entry and even go on (within
+                    # max_iter, checked above): only the prefix relation is required
+                    msg = diff_snapshots(final[: n_full - 1], expected_final[: n_full - 1]) or diff_snapshots(
+                        final[n_full - 1:], expected_final[n_full - 1:], prefix_only=True, subset_names=True)
+                    ctx.check(msg is None, "same_history", f"restart after crash {k} (reset_iteration_counters=False): final history differs from the uninterrupted run: {msg}", k=k)
+                    ctx.cls("history_equality_checked_up_to_known_findings")
+                    continue
+                msg = diff_snapshots(final, expected_final)
+                ctx.check(msg is None, "same_history", f"restart after crash {k} (reset_iteration_counters=False): final history differs from the uninterrupted run: {msg}", k=k)
+                ctx.check(same_value(res["x_opt"], ref["result"]["x_opt"]) and res["f_opt"] == ref["result"]["f_opt"], "same_history",
+                          f"restart after crash {k}: optimum {res['x_opt']}, {res['f_opt']} differs from the uninterrupted run's {ref['result']['x_opt']}, {ref['result']['f_opt']}", k=k)
+                ctx.cls("history_equality_checked")
+            else:
+                msg = diff_snapshots(final, expected_final, prefix_only=True, subset_names=True)
+                ctx.check(msg is None, "history_prefix", f"restart after crash {k} (reset_iteration_counters=True): the uninterrupted history is not a prefix of the restarted one: {msg}", k=k)
+                ctx.cls("history_prefix_checked")
+                if len(final) > n_full:
+                    ctx.cls("restart_goes_beyond_the_uninterrupted_run")
+
+
+def _case_parallel(p, ctx, work, workers):
+    """Interrupted parallel DOE: every sample as the one in progress when the process dies."""
+    desc = descriptor(p)
+    policy = p["policy"]
+    path0 = os.path.join(work, "scratch_ref.h5")
+    (code, doc), = run_children([(lambda: child_run(p, path0, "fresh", None, True), os.path.join(work, "scratch_ref.pkl"))], 1)
+    ref = child_document(ctx, code, doc, f"uninterrupted sequential run [{desc}]")
+    points = [ev[3] for ev in ref["events"] if ev[0] == "exec"]
+    n = len(points)
+    if n != len(ref["final"]) or len({x.tobytes() for x in points}) != n:
+        raise HarnessError(f"C12: parallel configuration without one execution per distinct sample: {desc}")
+    n_full = n
+    fail = {j for j in range(n) if (p["fail_mask"] >> j) & 1}
+    value_of = {x.tobytes(): vals for x, vals in ref["final"]}
+    ctx.cls("kind_doe", f"algo_{p['algo']}", f"policy_{policy}", "initial_absent", "structure_single", "doe_parallel_interrupted",
+            "restart_reset_counters" if p["reset"] else "restart_keeps_counters", "maximize" if p.get("maximize") else "minimize")
+
+    dirs, tasks = [], []
+    for c in range(n):
+        d = os.path.join(work, f"k{c + 1}")
+        os.mkdir(d)
+        path = os.path.join(d, "backup.h5")
+        dirs.append((c + 1, d, path))
+        tasks.append((lambda c=c, d=d, path=path: child_run_parallel(p, path, c, fail, os.path.join(d, "stored"), points), os.path.join(d, "crash.pkl")))
+    crash_out = run_children(tasks, workers)
+    ctx.evaluations += n - 1
+    ctx.extra["configurations"] = ctx.extra.get("configurations", 0) + (0 if ctx.replaying else 1)
+    ctx.extra["crash_points"] = ctx.extra.get("crash_points", 0) + (0 if ctx.replaying else n)
+    ctx.extra["max_crash_points_per_configuration"] = max(ctx.extra.get("max_crash_points_per_configuration", 0), n)
+    if not ctx.replaying:
+        ctx.extra.setdefault("crash_points_per_configuration", []).append(f"{desc}: K={n}, full history {n_full}")
+
+    backups = {}
+    for (k, d, path), (code, doc) in zip(dirs, crash_out):
+        c = k - 1
+        if code != -signal.SIGKILL:
+            child_document(ctx, code, doc, f"parallel run interrupted at sample {c} [{desc}]", k=k)
+            raise HarnessError(f"C12: parallel run interrupted at sample {c} ended with code {code} instead of being killed [{desc}]")
+        done = [j for j in range(c) if j not in fail]
+        if not done and policy == "iter":
+            exp = None  # no new iteration before the death: nothing was exported
+        else:
+            exp = [(points[j], dict(value_of[points[j].tobytes()]) if j in done else {}) for j in range(n)]
+        try:
+            got = load_backup(path)
+        except Exception as exc:  # noqa: BLE001
+            ctx.fail("backup_loads", f"parallel DOE interrupted at sample {c}: Database.from_hdf fails: {type(exc).__name__}: {exc}", k=k)
+        if exp is None:
+            ctx.check(not got, "backup_content", f"parallel DOE interrupted at sample {c}: backup holds {len(got or [])} entries, no evaluation was completed", k=k)
+        else:
+            ctx.check(got is not None, "backup_loads", f"parallel DOE interrupted at sample {c}: no backup file, {len(done)} evaluations were completed", k=k)
+            msg = diff_snapshots(got, exp)
+            ctx.check(msg is None, "backup_content", f"parallel DOE interrupted at sample {c} (failed samples {sorted(j for j in fail if j < c)}, policy {policy}): {msg}", k=k)
+        backups[k] = got or []
+        n_b = sum(1 for _, vals in backups[k] if vals)
+        if 0 < n_b < n_full:
+            ctx.nontriv((p, k))
+            ctx.cls("crash_point_nontrivial")
+        else:
+            ctx.cls("crash_point_empty_backup")
+        seen_empty = False
+        for _, vals in backups[k]:
+            if not vals:
+                seen_empty = True
+            elif seen_empty:
+                ctx.cls("backup_with_empty_entry_before_a_complete_one")
+                break
+    _check_restarts(p, ctx, desc, ref, dirs, backups, workers, False, n_full, False)
+    ctx.sample({"configuration": p, "crash_points": n, "entries_full_run": n_full,
+                "backup_sizes": [sum(1 for _, vals in backups[k] if vals) for k in sorted(backups)]})
+
+
 def _case(p, ctx, work, workers):
+    if p.get("parallel"):
+        return _case_parallel(p, ctx, work, workers)
     desc = descriptor(p)
     policy, initial_mode = p["policy"], p["initial"]
 
@@ -719,126 +1001,7 @@ def _case(p, ctx, work, workers):
         if backups[k] and set(backups[k][-1][1]) != set(ref["final"][len(backups[k]) - 1][1]):
             ctx.cls("crash_point_last_entry_partial")
 
-    # ---- restart from every crashed backup
-    restart_mode = "warm" if warm else "load"  # the re-run of the same script / the documented restart
-    tasks = [(lambda path=path: child_run(p, path, restart_mode, None, False), os.path.join(d, "restart.pkl")) for k, d, path in dirs]
-    restart_out = run_children(tasks, workers)
-    for (k, d, path), (code, doc) in zip(dirs, restart_out):
-        rs = child_document(ctx, code, doc, f"restart after the crash at execution {k} [{desc}]", k=k)
-        backup = backups[k]
-        final = rs["final"]
-        exact = {(str(x.dtype), x.tobytes()): i for i, (x, _) in enumerate(final)}
-        by_point = {}
-        for i, (x, _) in enumerate(final):
-            by_point.setdefault(phys_key(x), i)
-
-        # loaded entries are kept, first and in order
-        expected_initial = backup
-        if warm:
-            # the script already holds its first batch when it loads: those entries, completed / followed by the backup's
-            # (a backup written after the first batch starts with them, so this is the backup itself unless it is empty)
-            expected_initial = [(x, dict(vals)) for x, vals in ref["initial"]]
-            for x_b, vals_b in backup:
-                for x_e, vals_e in expected_initial:
-                    if same_key(x_e, x_b):
-                        vals_e.update(vals_b)
-                        break
-                else:
-                    expected_initial.append((x_b, dict(vals_b)))
-        msg = diff_snapshots(rs["initial"], expected_initial)
-        ctx.check(msg is None, "loaded_kept", f"restart after crash {k}: database after load=True differs from the backup: {msg}", k=k)
-        msg = diff_snapshots(final, backup, prefix_only=True, subset_names=True)
-        ctx.check(msg is None, "loaded_kept", f"restart after crash {k}: loaded entries changed at the end of the run: {msg}", k=k)
-
-        # no rework
-        in_backup = {phys_key(x): (x, vals) for x, vals in backup}
-        n_replayed = 0
-        for ev in rs["events"]:
-            if ev[0] != "exec" or ev[1] <= rs["n_exec_before"]:
-                continue  # executions of the script before it set (and loaded) the backup
-            _, _, name, x = ev
-            hit = in_backup.get(phys_key(x)) if phys_key(x) is not None else None
-            if hit is None:
-                continue
-            x_b, vals = hit
-            n_replayed += 1
-            i = exact.get((str(x_b.dtype), x_b.tobytes()))
-            new_names = set(final[i][1]) - set(vals) if i is not None else set()
-            ctx.check(bool(new_names), "no_rework",
-                      f"restart after crash {k}: discipline {name} executed at {x.tolist()} although the backup holds {sorted(vals)} there and nothing new was stored",
-                      k=k, point=x.tolist())
-        if n_replayed:
-            ctx.cls("restart_completes_a_partial_entry")
-        if backup and rs["n_exec"] < ref["n_exec"]:
-            ctx.cls("restart_saves_executions")
-
-        # optimum at least as good as the best loaded one
-        tol = rs["ineq_tolerance"]
-        res = rs["result"]
-        obj = rs["objective_name"]
-        complete = [vals for _, vals in backup if obj in vals and ("g" in vals or not has_constraint(p))]
-        feasible = [float(np.real(np.atleast_1d(vals[obj])[0])) for vals in complete if not has_constraint(p) or bool(np.all(np.asarray(vals["g"]) <= tol))]
-        if feasible:
-            best = min(feasible)
-            ctx.check(res["is_feasible"], "optimum", f"restart after crash {k}: reported optimum infeasible, the backup holds a feasible point", k=k)
-            # the stored (standardised: minimised) objective at the reported point; no sign convention of f_opt involved
-            i_opt = by_point.get(phys_key(res["x_opt"])) if res["x_opt"] is not None else None
-            ctx.check(i_opt is not None and obj in final[i_opt][1], "optimum",
-                      f"restart after crash {k}: reported optimum {res['x_opt']} has no recorded objective", k=k)
-            reported = float(np.real(np.atleast_1d(final[i_opt][1][obj])[0]))
-            ctx.check(reported <= best, "optimum",
-                      f"restart after crash {k}: reported point has {obj} = {reported}, the backup holds a feasible point with {best}", k=k)
-            ctx.cls("restart_with_feasible_loaded_point")
-        elif complete and not res["is_feasible"]:
-            g_rep = res["constraints"].get("g")
-            if g_rep is None or np.asarray(g_rep).dtype == object:
-                # The reported point is a partially recorded one (e.g. the loaded incomplete entry that a normalised
-                # restart missed by an ulp): no violation measure is defined for it (C04's assumption, P16).
-                ctx.cls("restart_reports_partially_recorded_point")
-            else:
-                least = min(violation_measure(vals["g"], tol) for vals in complete)
-                # relative margin 1e-9: the code sums squares in its own order
-                ctx.check(violation_measure(g_rep, tol) <= least * (1 + 1e-9), "optimum",
-                          f"restart after crash {k}: reported violation {violation_measure(g_rep, tol)}, a loaded point has {least}", k=k)
-                ctx.cls("restart_with_only_infeasible_loaded_points")
-
-        # the restored counter: a run completed with reset_iteration_counters=False stays within max_iter
-        if p["kind"] == "mdo" and not p["reset"]:
-            ctx.check(len(final) <= p["budget"], "counter_restored",
-                      f"restart after crash {k} (reset_iteration_counters=False, {len(backup)} loaded entries): {len(final)} entries, max_iter={p['budget']}", k=k)
-            if budget_bound:
-                ctx.cls("restart_keeping_counters_of_a_run_stopped_by_max_iter")
-
-        # same history as the uninterrupted run
-        if not p["normalize"]:
-            expected_final = ref["final"]
-            missing_obs = [i for i, (_, vals) in enumerate(backup) if "o" not in vals and i < len(final) and "o" not in final[i][1]]
-            if p["kind"] == "mdo" and p.get("observable") and missing_obs and ctx.known(KNOWN_OBSERVABLE):
-                # exactly that class: the observable is not required at loaded entries that came without it
-                expected_final = [(x, {n: v for n, v in vals.items() if not (n == "o" and i in missing_obs)})
-                                  for i, (x, vals) in enumerate(ref["final"])]
-            if not p["reset"]:
-                msg = diff_snapshots(final, expected_final)
-                if msg is not None and p["kind"] == "mdo" and len(backup) == n_full and ctx.known(KNOWN_LAST_ENTRY):
-                    # exactly that class: the crash came after the store whose new-iteration event stopped the
-                    # uninterrupted run; the restarted run may complete this last entry and even go on (within
-                    # max_iter, checked above): only the prefix relation is required
-                    msg = diff_snapshots(final[: n_full - 1], expected_final[: n_full - 1]) or diff_snapshots(
-                        final[n_full - 1:], expected_final[n_full - 1:], prefix_only=True, subset_names=True)
-                    ctx.check(msg is None, "same_history", f"restart after crash {k} (reset_iteration_counters=False): final history differs from the uninterrupted run: {msg}", k=k)
-                    ctx.cls("history_equality_checked_up_to_known_findings")
-                    continue
-                msg = diff_snapshots(final, expected_final)
-                ctx.check(msg is None, "same_history", f"restart after crash {k} (reset_iteration_counters=False): final history differs from the uninterrupted run: {msg}", k=k)
-                ctx.check(same_value(res["x_opt"], ref["result"]["x_opt"]) and res["f_opt"] == ref["result"]["f_opt"], "same_history",
-                          f"restart after crash {k}: optimum {res['x_opt']}, {res['f_opt']} differs from the uninterrupted run's {ref['result']['x_opt']}, {ref['result']['f_opt']}", k=k)
-                ctx.cls("history_equality_checked")
-            else:
-                msg = diff_snapshots(final, expected_final, prefix_only=True, subset_names=True)
-                ctx.check(msg is None, "history_prefix", f"restart after crash {k} (reset_iteration_counters=True): the uninterrupted history is not a prefix of the restarted one: {msg}", k=k)
-                ctx.cls("history_prefix_checked")
-                if len(final) > n_full:
-                    ctx.cls("restart_goes_beyond_the_uninterrupted_run")
+    _check_restarts(p, ctx, desc, ref, dirs, backups, workers, warm, n_full, budget_bound)
     ctx.sample({"configuration": p, "crash_points": n_crash, "entries_full_run": n_full,
                 "backup_sizes": [len(backups[k]) for k in sorted(backups)]})
 
